@@ -598,6 +598,13 @@ var preludeAxioms = [][2]string{
 	{"scat-at", "(forall ((a Str) (b Str) (i Int)) (! (= (sat (scat a b) i) (ite (< i (slen a)) (sat a i) (sat b (- i (slen a))))) :pattern ((sat (scat a b) i))))"},
 	{"ssub-len", "(forall ((s Str) (i Int) (j Int)) (! (=> (and (<= 0 i) (<= i j) (<= j (slen s))) (= (slen (ssub s i j)) (- j i))) :pattern ((ssub s i j))))"},
 	{"ssub-at", "(forall ((s Str) (i Int) (j Int) (k Int)) (! (=> (and (<= 0 i) (<= i j) (<= j (slen s)) (<= 0 k) (< k (- j i))) (= (sat (ssub s i j) k) (sat s (+ i k)))) :pattern ((sat (ssub s i j) k))))"},
+	{"ssub-full", "(forall ((s Str)) (! (= (ssub s 0 (slen s)) s) :pattern ((ssub s 0 (slen s)))))"},
+	{"ssub-empty", "(forall ((s Str) (i Int)) (! (=> (and (<= 0 i) (<= i (slen s))) (= (slen (ssub s i i)) 0)) :pattern ((ssub s i i))))"},
+	{"slen-zero", "(forall ((a Str) (b Str)) (! (=> (and (= (slen a) 0) (= (slen b) 0)) (= a b)) :pattern ((slen a) (slen b))))"},
+	{"scat-empty-l", "(forall ((a Str) (b Str)) (! (=> (= (slen a) 0) (= (scat a b) b)) :pattern ((scat a b))))"},
+	{"scat-empty-r", "(forall ((a Str) (b Str)) (! (=> (= (slen b) 0) (= (scat a b) a)) :pattern ((scat a b))))"},
+	{"ssub-ssub", "(forall ((s Str) (a Int) (b Int) (c Int) (d Int)) (! (=> (and (<= 0 a) (<= a b) (<= b (slen s)) (<= 0 c) (<= c d) (<= d (- b a))) (= (ssub (ssub s a b) c d) (ssub s (+ a c) (+ a d)))) :pattern ((ssub (ssub s a b) c d))))"},
+	{"ssub-cat", "(forall ((s Str) (a Int) (b Int) (c Int)) (! (=> (and (<= 0 a) (<= a b) (<= b c) (<= c (slen s))) (= (scat (ssub s a b) (ssub s b c)) (ssub s a c))) :pattern ((scat (ssub s a b) (ssub s b c)))))"},
 	{"sat-byte", "(forall ((s Str) (i Int)) (! (and (<= 0 (sat s i)) (< (sat s i) 256)) :pattern ((sat s i))))"},
 	{"s-lt-irrefl", "(forall ((a Str)) (! (not (s_lt a a)) :pattern ((s_lt a a))))"},
 	{"s-lt-trans", "(forall ((a Str) (b Str) (c Str)) (! (=> (and (s_lt a b) (s_lt b c)) (s_lt a c)) :pattern ((s_lt a b) (s_lt b c))))"},
